@@ -17,7 +17,7 @@ func init() {
 			"R17.1 lock discipline: every read and write of TargetsDiscovery.{config,activeTargets,dropTargets} and of Explore.targets / exploringTarget.exploring, and every use (lookup, update, delete, range, len) of the maps loaded from them, happens with the owning mutex held (constructors on fresh objects exempt); " +
 			"R17.2 snapshots: exported getters return a map made in the call and filled under the lock; slices published in the guarded maps are only ever fresh slices or unmodified entries moved from the previous map (never a re-slice or in-place append of a published slice); " +
 			"R17.3 reload: ApplyConfig builds new maps that receive, for each job of the new configuration, the old entry under the same key - only for jobs that had one, since a key means the job had a discovery round -, and installs them (and the new config) in the same critical section; the explorer's ApplyConfig keeps exactly the entries whose job still exists; " +
-			"R17.4 per-job replacement: a discovery update installs one freshly built slice per job of the update (not carried across jobs) for every job of the update that has a configuration; the explorer's table is replaced as a whole, on every update, by a fresh map keyed by the hashes of the latest update only; R17.5 every translated target with (discovered) labels is listed - no further filter between translation and the per-job lists.",
+			"R17.4 per-job replacement: a discovery update installs one freshly built slice per job of the update (not carried across jobs) for every job of the update that has a configuration; the explorer's table is replaced as a whole, on every update, by a fresh map keyed by the hashes of the latest update only; R17.5 every translated target with (discovered) labels is listed - no further filter between translation and the per-job lists; R17.6 the result of every translation is handed to the consumer by a blocking send on the notification channel (no select with a way around it).",
 		Assumptions: []string{"go/types and go/ssa are correct", "lock identity is by mutex field, not by instance"}})
 }
 
@@ -473,6 +473,46 @@ func runC17(p *engine.Prog, r *engine.Report) {
 					}
 				}
 				r.Check(len(probs) == 0, "R17.5-all-listed", fmt.Sprintf("listing#%d in %s", n, engine.FuncName(fn)), "append at "+p.Rel(call.Pos()), "every translated target with (discovered) labels is listed; no further filter", strings.Join(probs, "; "))
+			}
+		}
+	}
+
+	// ---- R17.6 every translated update is handed to the consumer: a blocking send of the translation's result on the
+	// notification channel (no select with a way around it: the update skipped would be the newest one)
+	{
+		r.Min("R17.6-update-sent", 1)
+		fChan := p.Field(pkgDisc, "TargetsDiscovery", "activeTargetsChan")
+		n := 0
+		for _, fn := range p.Funcs {
+			if !engine.InPkg(fn, pkgDisc) || fChan == nil {
+				continue
+			}
+			for _, in := range allInstrs(fn) {
+				call, ok := in.(*ssa.Call)
+				if !ok || call.Call.StaticCallee() == nil || call.Call.StaticCallee().Name() != "translateTargets" {
+					continue
+				}
+				n++
+				var probs []string
+				sent := false
+				for _, rr := range *call.Referrers() {
+					if sd, ok := rr.(*ssa.Send); ok && sd.X == ssa.Value(call) {
+						if _, ok := loadOfField(sd.Chan, fChan); ok {
+							sent = true
+						}
+					}
+					if sel, ok := rr.(*ssa.Select); ok {
+						for _, stt := range sel.States {
+							if stt.Send == ssa.Value(call) && (len(sel.States) > 1 || !sel.Blocking) {
+								probs = append(probs, "the update is offered in a select with another way out (at "+p.Rel(sel.Pos())+"): when that is taken the consumer never sees this update, and it may be the last one")
+							}
+						}
+					}
+				}
+				if !sent && len(probs) == 0 {
+					probs = append(probs, "the translated update is not sent on the notification channel by a blocking send")
+				}
+				r.Check(len(probs) == 0, "R17.6-update-sent", fmt.Sprintf("update#%d in %s", n, engine.FuncName(fn)), "translation at "+p.Rel(call.Pos()), "its result is sent to the consumer by a blocking send", strings.Join(probs, "; "))
 			}
 		}
 	}
